@@ -453,6 +453,8 @@ def load_findings():
 
 def finding_matches(finding, problem):
     m = finding.get("match", {})
+    if "custom" in m or not any(k in m for k in ("kind", "op", "impl", "model", "case_has")):
+        return False        # custom matchers are evaluated by the plugin's own finding_matches only
     if "kind" in m and problem.kind not in (m["kind"] if isinstance(m["kind"], list) else [m["kind"]]):
         return False
     for key, val in (("op", problem.line), ("impl", problem.impl), ("model", problem.model)):
